@@ -27,6 +27,11 @@ Proof. exact binom_exact. Qed.
 Theorem C20_binom64 : forall n k, n <= 57 -> binom64 (N.of_nat n) (N.of_nat k) = Some (N.of_nat (C n k)).
 Proof. exact binom64_exact. Qed.
 
+(* the binary-arithmetic variant of the state machine that the correspondence run evaluates for larger n is the same function *)
+Theorem C20_runN : forall n k fuel st,
+  it_runN fuel n k st = (map (option_map N.of_nat) (fst (it_run fuel n k st)), snd (it_run fuel n k st)).
+Proof. exact it_runN_spec. Qed.
+
 (* non-vacuity: a concrete instance *)
 Example C20_example : selections 4 2 = [[0;1];[0;2];[1;2];[0;3];[1;3];[2;3]] /\ C 4 2 = 6.
 Proof. split; reflexivity. Qed.
@@ -44,3 +49,4 @@ Print Assumptions C20_order.
 Print Assumptions C20_empty.
 Print Assumptions C20_binom.
 Print Assumptions C20_binom64.
+Print Assumptions C20_runN.
